@@ -1103,6 +1103,14 @@ func runOp(r *lib.Run, op string) {
 		_, err := fmt.Sscanf(f[1], "%d", &seed)
 		must(err == nil && fmt.Sprint(seed) == f[1])
 		runE2E10(r, op, seed)
+	case "e2ecfg":
+		must(len(f) == 5)
+		var seed uint64
+		_, err := fmt.Sscanf(f[1], "%d", &seed)
+		must(err == nil && fmt.Sprint(seed) == f[1])
+		nd, slow, joint, ok := cfgShape(f[2:])
+		must(ok)
+		runE2ECfg(r, op, seed, nd, slow, joint)
 	case "e2e":
 		must(len(f) == 2)
 		var seed uint64
